@@ -1967,11 +1967,15 @@ public:
     if (x.get_type().is_bool()) {
       m_bool_to_lincsts.set(new_x, m_bool_to_lincsts.at(x));
       m_bool_to_refcsts.set(new_x, m_bool_to_refcsts.at(x));
-      // REVISIT: do nothing in m_bool_to_bools is not precise but sound.
+      // REVISIT: not copying m_bool_to_bools is not precise but
+      // sound. What was recorded about the previous definition of
+      // new_x must go.
+      m_bool_to_bools -= new_x;
+      forget_bool_uses(new_x);
     } else {
-      if (m_unchanged_vars.at(x)) {
-	m_unchanged_vars += new_x;
-      }
+      // new_x is redefined: the constraints recorded over it (if any)
+      // talk about its previous value.
+      m_unchanged_vars -= new_x;
     }
   }
 }; // class flat_boolean_numerical_domain
